@@ -841,6 +841,22 @@ func genFuncs() string {
 			fmt.Fprintf(&sb, "/-- %s writeBlobParts: each loop iteration appends the part name and starts the Put of that part, with no branch (continue/break) around either -/\ndef store_everyNamedPartIsPut : Bool := %v\n\n", rel, named == 1 && put == 1 && jumps == 0 && !condPut)
 		}
 
+		// the error channel of the part writers: every writer goroutine may send one error, and nobody receives
+		// before all of them are done (wg.Wait), so the channel needs one slot per writer
+		{
+			capExpr := ""
+			ast.Inspect(wb, func(n ast.Node) bool {
+				if a, ok := n.(*ast.AssignStmt); ok && len(a.Lhs) == 1 && len(a.Rhs) == 1 && src(a.Lhs[0]) == "errs" {
+					if c, ok := a.Rhs[0].(*ast.CallExpr); ok && src(c.Fun) == "make" && len(c.Args) == 2 && strings.HasPrefix(src(c.Args[0]), "chan ") {
+						capExpr = src(c.Args[1])
+					}
+				}
+				return true
+			})
+			bound := strings.TrimPrefix(src(fl.Cond), "i < ")
+			fmt.Fprintf(&sb, "/-- %s writeBlobParts: the error channel has one slot per part writer (capacity %q, writers %q) -/\ndef store_partErrsSlotPerWriter : Bool := %v\n\n", rel, capExpr, bound, capExpr != "" && capExpr == bound)
+		}
+
 		nb := mustFunc(f, rel, "", "newBlob")
 		first, ok := nb.Body.List[0].(*ast.IfStmt)
 		if !ok {
